@@ -62,6 +62,17 @@ func (p *Proof) IsValid(public Public) bool {
 	if p == nil {
 		return false
 	}
+	// every field is needed below: a proof with a missing field is not valid
+	if p.Commitment == nil ||
+		p.Z1 == nil ||
+		p.Z2 == nil ||
+		p.Z3 == nil ||
+		p.S == nil ||
+		p.A == nil ||
+		p.Y == nil ||
+		p.D == nil {
+		return false
+	}
 	if !public.Prover.ValidateCiphertexts(p.A) {
 		return false
 	}
